@@ -1,6 +1,7 @@
 package props
 
 import (
+	"context"
 	"encoding/json"
 	"fmt"
 	"math"
@@ -1149,6 +1150,50 @@ func runC14(c *h.Ctx) {
 			default:
 				c.Held("exists-agrees")
 				c.Held("continued")
+			}
+		}
+	}
+	// ranges over thousands of elements, the context becoming done between two
+	// of the executor's polls: the accessor fails or selects what the range
+	// selects - a result with a nil error is the complete one
+	{
+		els := make([]string, 3000)
+		for i := range els {
+			els[i] = fmt.Sprint(i)
+		}
+		docText := `{"a":[` + strings.Join(els, ",") + `]}`
+		k := 0
+		for _, pt := range []string{`$.a[0 to last]`, `strict $.a[1, 5 to 2500]`, `$.a[last - 2999 to last]`, `$.a[0 to 1500, 1000 to last]`, `strict $.a[2 to 2047]`, `$.a[1020 to 1030]`} {
+			for _, entry := range []string{"query", "first", "exists"} {
+				for _, silent := range []bool{false, true} {
+					k++
+					if !c.Mine(k) {
+						continue
+					}
+					p := cachedPath(pt)
+					if p == nil {
+						continue
+					}
+					opts := h.Opts{Silent: silent}
+					base := h.Call(entry, p, h.Decode(docText, false), opts)
+					c.Eval(1)
+					for n := 1; n <= base.Polls; n++ {
+						for _, cause := range []error{context.Canceled, context.DeadlineExceeded} {
+							m := &h.CallMon{CancelAt: -1, CancelAfterPoll: n, Cause: cause}
+							o := h.CallMonitored(entry, p, h.Decode(docText, false), opts, m)
+							c.Eval(1)
+							cs := h.Case{Kind: "long-range", Path: pt, Entry: entry, Silent: silent, Extra: map[string]string{"after-poll": fmt.Sprint(n)}}
+							switch {
+							case o.Class == h.Panic:
+								c.Skip("range", "panic-is-C05")
+							case o.Err == nil && o.Summary() != base.Summary():
+								c.Violate("range", h.F("kind", "cut-short", "entry", entry, "mode", modeName(!strings.HasPrefix(pt, "strict "))), fmt.Sprintf("%s(%s) on an array of 3000 elements, the context becoming done after poll %d of %d: nil error and %d items; undisturbed: %d items", entry, pt, n, base.Polls, len(o.Items), len(base.Items)), cs)
+							default:
+								c.Held("range")
+							}
+						}
+					}
+				}
 			}
 		}
 	}
